@@ -6,6 +6,7 @@ import z3
 FUNCTIONS = ['get_importances_estimate_pairwise', 'generate_data_for_ranking', 'conduct_feature_ranking', 'numba_mi', 'max_pair_coverage',
              'mixed_rank_graph', 'prior_combinations_sample']
 LEVEL = 'other'
+CLOSURE = 'frame'     # callees outside FUNCTIONS contribute their frame obligation only (their values are C01-C07's business)
 EXPLANATION = ('determinism proof under a TRUSTED concurrency contract - interleavings are not explored by this family.  (1) trusted stub: '
                'pool.amap(f, xs).get() == [f(x) for x in xs], each f(x) in an isolated worker; mixed_rank_graph is verified against it '
                '(rows keyed by the names carried in each triplet).  (2) frame obligations on the worker function and everything it calls: '
